@@ -24,6 +24,7 @@ func main() {
 	list := flag.Bool("list", false, "list properties")
 	selfOnly := flag.Bool("selftest", false, "run only the checker self-test (mutant corpus) of the property and print the verdicts")
 	only := flag.String("mutant", "", "with -selftest: run only this mutant and print the checker output")
+	all := flag.Bool("all", false, "regression helper: load the repository once and run the quick tier of every property; evidence and known findings of property P live in <verif>/P; prints one line `ALL-FIRED P:rule,rule, Q:rule, ...`")
 	genBase := flag.Bool("gen-baseline", false, "print the baseline of unexported declarations of the repository (core/baseline_names.json)")
 	flag.Parse()
 	if *genBase {
@@ -51,6 +52,9 @@ func main() {
 			fmt.Println(id)
 		}
 		return
+	}
+	if *all {
+		os.Exit(runAll(*repo, *verif))
 	}
 	p := rules.Properties[*prop]
 	if p == nil {
@@ -132,4 +136,61 @@ func isFlagSet(name string) bool {
 		}
 	})
 	return set
+}
+
+// runAll: the quick tier of every property on one loaded program (used by the seeded / benign regression scripts).
+func runAll(repo, verif string) int {
+	prog, err := core.Load(core.Config{Repo: repo})
+	if err != nil {
+		fmt.Println("ALL-FIRED load:" + err.Error())
+		return 1
+	}
+	var ids []string
+	for id := range rules.Properties {
+		ids = append(ids, id)
+	}
+	sort.Strings(ids)
+	out := "ALL-FIRED"
+	rc := 0
+	for _, id := range ids {
+		p := rules.Properties[id]
+		rep := core.NewReport(p.ID, "quick")
+		rep.SetConfig("default graph=vta")
+		ctx := rules.NewCtx(prog, rep, "vta", "quick")
+		for _, rule := range p.Rules {
+			func() {
+				defer func() {
+					if e := recover(); e != nil {
+						rep.Unknown(rule.ID, "checker-panic", "", fmt.Sprintf("the rule panicked: %v\n%s", e, debug.Stack()))
+					}
+				}()
+				rule.Run(ctx)
+			}()
+		}
+		filesSeen := map[string]bool{}
+		for _, f := range prog.Files {
+			filesSeen[f] = true
+		}
+		rules.CheckFilesCovered(rep, p.ID, repo, filesSeen)
+		if code := rep.Finish(verif+"/"+id, p.Explanation, p.NotDecided, rules.TrustedBase, map[string]any{"build_configs": []string{"default graph=vta"}}); code != 0 {
+			rc = 1
+			fired := map[string]bool{}
+			for _, o := range rep.Obs {
+				if o.Status == core.Violated || o.Status == core.Undecided {
+					fired[o.Rule] = true
+				}
+			}
+			var fs []string
+			for f := range fired {
+				fs = append(fs, f)
+			}
+			sort.Strings(fs)
+			out += " " + id + ":"
+			for _, f := range fs {
+				out += f + ","
+			}
+		}
+	}
+	fmt.Println(out)
+	return rc
 }
